@@ -40,9 +40,8 @@ def items(tier, seed):
                 si = mod.disassemble.iset()
             nspecs = len(isa.spec_sets(mod)[si][1])
             idx = list(range(nspecs))
-            if tier == "quick":
-                rnd.shuffle(idx)
-                idx = sorted(idx[: max(3, nspecs // 40)])
+            rnd.shuffle(idx)
+            idx = sorted(idx[: max(3, nspecs // 40)] if tier == "quick" else idx[: max(8, nspecs // 8)])
             per = 8 if cpu.endswith(("cpu_x64", "cpu_x86")) else 25
             for i in range(0, len(idx), per):
                 out.append((cpu, mode, si, idx[i:i + per], tier))
@@ -208,8 +207,8 @@ def run_item(item):
     mod = isa.load(cpu)
     specs = isa.spec_sets(mod)[si][1]
     ml = mod.disassemble.maxlen
-    mp = 400 if tier == "quick" else 2500
-    bud = 15 if tier == "quick" else 180
+    mp = 400 if tier == "quick" else 800
+    bud = 15 if tier == "quick" else 30
     with symx.injected():
         for k in idx:
             s = specs[k]
@@ -299,9 +298,9 @@ def coverage(agg, tier):
         "consumed_length_histogram": agg.get("lengths", {}),
         "stubs": symx.STUBS,
         "rule": "state = one path of cpu.disassemble (real hooks) on symbolic bytes; obligations = per path: bytes are the leading input bytes and 1<=L<=N; path condition/fields mention only consumed bytes (else refinement query); for each pair of paths from two fetch windows sharing an input: skeleton equal and each symbolic field proven equal",
-        "bounds": {"specs": "every non-prefix shipped spec (quick: 1/40 per cpu by seed, >= 3) of every importable cpu module / mode (little-endian fetch)",
+        "bounds": {"specs": "every non-prefix shipped spec (quick: 1/40 per cpu by seed, >= 3; thorough: 1/8, >= 8) of every importable cpu module / mode (little-endian fetch)",
                    "windows": "maxlen, maxlen+2, and the smallest two / largest consumed lengths observed",
-                   "paths": "quick <= 400 paths / 15 s per exploration, thorough <= 2500 / 180 s; <= 12 refinement steps per path",
+                   "paths": "quick <= 400 paths / 15 s per exploration, thorough <= 800 / 30 s; <= 12 refinement steps per path",
                    "outside": "register selectors beyond the realize cap; prefixed forms other than through the prefix specs; big-endian ARM fetch"},
         "exhaustive": False,
     }
